@@ -185,6 +185,17 @@ func Build(cfg *Cfg) (c *restful.Container, err error) {
 			runActs(rs, nil, w)
 		})
 	}
+	if cfg.CustomErr {
+		// same header handling as the library's writeServiceError, a message text of our own
+		c.ServiceErrorHandler(func(e restful.ServiceError, req *restful.Request, resp *restful.Response) {
+			for h, vs := range e.Header {
+				for _, v := range vs {
+					resp.Header().Add(h, v)
+				}
+			}
+			resp.WriteErrorString(e.Code, "E"+strconv.Itoa(e.Code))
+		})
+	}
 	for _, f := range cfg.CF {
 		c.Filter(mkFilter(f, "cf"+strconv.Itoa(f.ID)))
 	}
